@@ -10,5 +10,5 @@ func init() {
 		},
 		Explanation: "pure differential oracle: verdict class, sequence of reductions (recorded by the actions), resulting value (all union fields) and number of tokens requested from the lexer must be equal across the five variants",
 	})
-	tgUnit("C08", "diff", []string{"productive", "lalr", "separators", "nullable", "prec", "prec-sep", "longrule", "dup"}, 24, 500, 4, 8, 120, 12)
+	tgUnit("C08", "diff", []string{"productive", "lalr", "separators", "nullable", "prec", "prec-sep", "longrule", "longrule", "dup"}, 36, 500, 4, 8, 120, 12)
 }
